@@ -10,7 +10,7 @@ def run(patch, prop):
         if subprocess.run(["patch", "-p1", "-s", "-f", "--no-backup-if-mismatch", "-i", patch], cwd=d, capture_output=True).returncode != 0:
             return prop, None, ["PATCH DOES NOT APPLY"]
         shutil.copy("/verif/known_findings.json", v)
-        r = subprocess.run(["/verif/bin/sscheck", "-property", prop, "-repo", d, "-verif", v], capture_output=True, text=True, env=env)
+        r = subprocess.run([os.environ.get("SSCHECK", "/verif/bin/sscheck"), "-property", prop, "-repo", d, "-verif", v], capture_output=True, text=True, env=env)
         fired = sorted({l.split(" at ")[0].split()[1] for l in r.stdout.splitlines() if l.startswith(("violated", "UNDECIDED"))})
         return prop, r.returncode, fired
     finally:
